@@ -123,6 +123,20 @@ fn main() {
                 Ok(())
             }
         }
+        "c13_times_pow2_full_range" => {
+            use ddo::{SubProblem, Times, WidthHeuristic};
+            let (k, m) = (r.u8() % 64, r.u8() % 64);
+            println!("inputs: factor=2^{} width=2^{}", k, m);
+            let s = SubProblem { state: std::sync::Arc::new(0u8), value: 0, path: vec![], ub: 0, depth: 0 };
+            // an overflow panic of the dev profile is "no width", not a width of zero
+            let one = std::panic::catch_unwind(|| Times(1usize << k, W(1usize << m)).max_width(&s));
+            let two = std::panic::catch_unwind(|| Times(1usize << k, Times(1usize << m, W(1))).max_width(&s));
+            if matches!(one, Ok(0)) || matches!(two, Ok(0)) {
+                Err("width combinator yields zero".to_string())
+            } else {
+                Ok(())
+            }
+        }
         _ => Err(format!("unknown harness {}", h)),
     };
     match res {
